@@ -1748,10 +1748,13 @@ def run_edit(inp):
         # the user edits an object DERIVED from this one: the source (and the caller's array) must not notice
         how = inp["derive"]
         src = obj if kind == "dataset" else arr_obj
+        before_derive = enc_arr(arr_of(base, arr_obj))
         try:
             if how == "native": der = src.native
             elif how == "slim": der = src.slim
             elif how == "copy": der = src.copy()
+            elif how == "deepcopy": import copy as _cp; der = _cp.deepcopy(src)
+            elif how == "shallowcopy": import copy as _cp; der = _cp.copy(src)
             elif how == "normalized": der = src.normalized
             elif how == "flipped": der = src.flipped
             elif how == "trim": der = src.trimmed_after_convolution_from(kernel_shape=(3, 3))
@@ -1765,6 +1768,9 @@ def run_edit(inp):
             target[(0,) * np.ndim(target._array)] = True if kind == "mask" else (complex(7, -7) if kind == "vis" else 77.0)
         except Exception as e:   # noqa  (a derivation that this object does not support: nothing was edited)
             if isinstance(e, ValueError) and str(e) == how: raise
+        # a copy (copy() / copy.copy / copy.deepcopy / -x) owns its buffer: editing it must leave the source's contents alone
+        if how in ("copy", "deepcopy", "shallowcopy", "neg") and enc_arr(arr_of(base, arr_obj)) != before_derive:
+            bad.append(f"the contents of the source changed when its {how} was edited in place")
     for (key, val) in inp["edits"]:
         k = tuple(key) if len(key) > 1 else key[0]
         if kind == "mask": arr_obj[k] = bool(val)
@@ -1813,9 +1819,11 @@ def gen_edit(rng):
     post = sorted(set(pre[:2] + rng.sample(qs, rng.randint(1, min(4, len(qs))))))
     derive = None
     if rng.random() < 0.5:
-        derive = rng.choice({"array": ["native", "slim", "copy", "trim", "pad", "resize", "neg"], "kernel": ["native", "slim", "copy", "normalized"],
-                             "grid": ["native", "slim", "copy", "flipped", "neg"], "vector": ["native", "slim", "copy"], "vis": ["copy", "neg"],
-                             "mask": ["copy", "edge", "invert"], "dataset": ["trim"]}[kind])
+        derive = rng.choice({"array": ["native", "slim", "copy", "trim", "pad", "resize", "neg", "deepcopy", "shallowcopy"],
+                             "kernel": ["native", "slim", "copy", "normalized", "deepcopy"],
+                             "grid": ["native", "slim", "copy", "flipped", "neg", "deepcopy", "shallowcopy"], "vector": ["native", "slim", "copy", "deepcopy"],
+                             "vis": ["copy", "neg", "deepcopy", "shallowcopy"],
+                             "mask": ["copy", "edge", "invert", "deepcopy"], "dataset": ["trim"]}[kind])
         edits = []        # only the derived object is edited: every quantity of the source is compared with the twin of its unchanged contents
     return {"op": "edit", "kind": kind, "mask": mask, "store_native": sn, "shape": shape, "v": v, "pre": pre, "edits": edits, "post": post, "derive": derive}
 
@@ -2514,8 +2522,10 @@ def gen_share(rng):
         r = rng.random(); d = rng.randrange(len(dss))
         if r < 0.4:
             a = rng.choice([None] + list(range(nargs)))
-            steps.append({"o": "apply", "d": d, "a": a}); dss.append(dss[d])
-        elif r < 0.6 and dss[d][0] == 0:
+            steps.append({"o": "apply", "d": d, "a": a}); dss.append((dss[d][0], dss[d][1], True))
+        elif r < 0.6 and dss[d][0] == 0 and not (dss[d][1] and len(dss[d]) > 2):
+            # (a MASKED dataset that went through apply_over_sampling has lost `unmasked`: apply_mask on it raises AttributeError -- loud,
+            #  outside the property's derivation list (see DESIGN section 0, observations); such a chain is not generated)
             how = "mask" if dss[d][1] or rng.random() < 0.6 else "noise_scaling"
             steps.append({"o": "keep", "d": d, "how": how}); dss.append((0, dss[d][1] or how == "mask"))
         elif r < 0.75: steps.append({"o": "peek_arg", "i": rng.randrange(nargs)} if nargs else {"o": "peek_default", "w": rng.randrange(4)})
@@ -2928,6 +2938,13 @@ def gen_inputs(tier, rng):
         yield {"op": "seed", "via": via, "shape": [H, W], "image": [rng.randint(1, 30) for _ in range(H * W)],
                "exposure": rng.choice([10.0, 100.0, 300.0]), "sky": rng.choice([0.0, 1.0]), "psf": rng.random() < 0.5 and H >= 3 and W >= 3,
                "seed": seed, "states": [rng.randint(0, 10 ** 6) for _ in range(3)]}
+    # (last, so that the draws of every earlier stream are unchanged) directed: the user edits a copy.deepcopy / copy.copy of the object (both copy the buffer): the source must not notice
+    for how in ("deepcopy", "shallowcopy"):
+        done = set()
+        for k in range(400):
+            c = gen_edit(rng)
+            if c["kind"] in done or c["kind"] == "dataset" or (how == "shallowcopy" and c["kind"] in ("kernel", "vector", "mask")): continue
+            done.add(c["kind"]); c["derive"] = how; c["edits"] = []; yield c
 
 def extra_evidence():
     return {"distribution": dict(sorted(TALLY.items())),"modelled_operations": ["ONew", "OConstruct(Array2D|Grid2D|VectorYX2D|Kernel2D|Visibilities|Mask2D|MapperRectangular)", "OAlias(Imaging)",
